@@ -299,6 +299,75 @@ func ruleFor(c *Ctx) *RuleResult {
 	} else {
 		r.fail("for-prepare-errors", p.Pos(run.Pos()), fmt.Sprintf("the numeric-for prepare branch lost an error exit (non-number operand error: %v, zero-step error: %v, ToNumberValue conversions: %d): a zero step would loop forever, a non-number would be used as a number", nanErr, zeroErr, toNum))
 	}
+	// nanFalse: a module function that answers false whenever an operand is NaN — its
+	// results derive only from ordered or equality comparisons (directly, or through
+	// other such functions), constants and phis, with no negation and no != anywhere
+	nanFalseMemo := map[*ssa.Function]int{} // 0 unknown, 1 yes, 2 no
+	var nanFalse func(f *ssa.Function, depth int) bool
+	nanFalse = func(f *ssa.Function, depth int) bool {
+		if f == nil || f.Blocks == nil || !p.InModule(f) || depth > 3 {
+			return false
+		}
+		switch nanFalseMemo[f] {
+		case 1:
+			return true
+		case 2:
+			return false
+		}
+		nanFalseMemo[f] = 2 // recursion guard
+		ok := true
+		nret := 0
+		forEachInstr(f, func(ins ssa.Instruction) {
+			switch x := ins.(type) {
+			case *ssa.UnOp:
+				if x.Op == token.NOT {
+					ok = false
+				}
+			case *ssa.BinOp:
+				if x.Op == token.NEQ {
+					ok = false
+				}
+			case *ssa.Return:
+				if len(x.Results) == 0 {
+					return
+				}
+				if b, isB := x.Results[0].Type().Underlying().(*types.Basic); !isB || b.Kind() != types.Bool {
+					ok = false
+					return
+				}
+				nret++
+				for w := range backSlice(x.Results[0], false) {
+					switch y := w.(type) {
+					case *ssa.Const, *ssa.Phi, *ssa.Parameter, *ssa.Extract, *ssa.Convert, *ssa.FieldAddr, *ssa.Field, *ssa.Alloc:
+					case *ssa.BinOp:
+						switch y.Op {
+						case token.LSS, token.LEQ, token.GTR, token.GEQ, token.EQL:
+						default:
+							// arithmetic feeding a comparison is fine; anything boolean else is not
+							if b, isB := y.Type().Underlying().(*types.Basic); isB && b.Kind() == types.Bool {
+								ok = false
+							}
+						}
+					case *ssa.Call:
+						if b, isB := y.Type().Underlying().(*types.Basic); isB && b.Kind() == types.Bool {
+							if !nanFalse(y.Call.StaticCallee(), depth+1) {
+								ok = false
+							}
+						}
+					case *ssa.UnOp:
+						if y.Op == token.NOT {
+							ok = false
+						}
+					}
+				}
+			}
+		})
+		if ok && nret > 0 {
+			nanFalseMemo[f] = 1
+			return true
+		}
+		return false
+	}
 	// advance: stores to the start register
 	nStores := 0
 	for b := range advR {
@@ -333,7 +402,7 @@ func ruleFor(c *Ctx) *RuleResult {
 					var ops []ssa.Value
 					switch x := ri.(type) {
 					case *ssa.Call:
-						if calleeNamed(x, "numIsLessThan") || calleeNamed(x, "isLessThan") || calleeNamed(x, "Lt") {
+						if calleeNamed(x, "numIsLessThan") || calleeNamed(x, "isLessThan") || calleeNamed(x, "Lt") || nanFalse(x.Call.StaticCallee(), 0) {
 							ops = x.Call.Args
 						}
 					case *ssa.BinOp:
@@ -473,11 +542,11 @@ func ruleFor(c *Ctx) *RuleResult {
 					}
 				}
 			case *ssa.Extract:
-				if cl, ok := x.Tuple.(*ssa.Call); ok && x.Index == 0 && (calleeNamed(cl, "isLessThan") || calleeNamed(cl, "Lt") || calleeNamed(cl, "le")) {
+				if cl, ok := x.Tuple.(*ssa.Call); ok && x.Index == 0 && (calleeNamed(cl, "isLessThan") || calleeNamed(cl, "Lt") || calleeNamed(cl, "le") || nanFalse(cl.Call.StaticCallee(), 0)) {
 					return no
 				}
 			case *ssa.Call:
-				if calleeNamed(x, "numIsLessThan") {
+				if calleeNamed(x, "numIsLessThan") || nanFalse(x.Call.StaticCallee(), 0) {
 					return no
 				}
 				if isNaNTest(x.Call.StaticCallee()) && len(x.Call.Args) >= 1 {
